@@ -433,3 +433,85 @@ pub fn pg_roundtrip<const B: usize, const L: usize, const T: usize>(nd: &mut Nd)
     core::mem::forget(out);
     core::mem::forget(t);
 }
+
+/// postgres NUMERIC encoding against the wire-format definition (numeric.c `numeric_send`): i16 ndigits, i16 weight
+/// (base-10000 exponent of the FIRST digit), i16 sign = 0, i16 dscale = 0, then the base-10000 digits, most
+/// significant first, with trailing zero digits stripped (zero: no digits, weight 0).  Constructive oracle: the
+/// harness draws ND base-10000 digits and builds the value from them, so no division appears on the oracle side.
+/// RT != 0 additionally decodes the bytes back.
+pub fn pg_numeric_enc<const B: usize, const ND: usize, const RT: usize>(nd: &mut Nd) {
+    use bytes::BytesMut;
+    use postgres_types::{FromSql, ToSql, Type};
+    let mut d = [0u64; ND];
+    let mut i = 0;
+    while i < ND {
+        d[i] = nd.u16() as u64;
+        nd.assume(d[i] < 10000);
+        i += 1;
+    }
+    let k = nd.upto(8 + 2 * ND);
+    let mut val: u64 = 0;
+    let mut i = ND;
+    while i > 0 {
+        i -= 1;
+        val = val * 10000 + d[i];
+    }
+    nd.assume(val <= refm::mask(B));
+    let v = Uint::<B, 1>::from_limbs([val]);
+    // n = number of digits up to the most significant non-zero one, tz = number of trailing zero digits
+    let mut n = 0usize;
+    let mut tz = ND;
+    let mut i = 0;
+    while i < ND {
+        if d[i] != 0 {
+            n = i + 1;
+            if tz == ND {
+                tz = i;
+            }
+        }
+        i += 1;
+    }
+    let (ndig, weight) = if n == 0 { (0usize, 0usize) } else { (n - tz, n - 1) };
+    cov!(nd, "trailing-zero-digit", n > 0 && tz > 0);
+    cov!(nd, "zero", n == 0);
+    let mut want = [0u8; 32];
+    want[0] = (ndig >> 8) as u8;
+    want[1] = ndig as u8;
+    want[2] = (weight >> 8) as u8;
+    want[3] = weight as u8;
+    let mut i = 0;
+    while i < ND {
+        // i-th emitted digit is d[n-1-i]
+        if i < ndig {
+            let dg = d[n - 1 - i];
+            want[8 + 2 * i] = (dg >> 8) as u8;
+            want[9 + 2 * i] = dg as u8;
+        }
+        i += 1;
+    }
+    let t = Type::NUMERIC;
+    let mut out = BytesMut::new();
+    match v.to_sql(&t, &mut out) {
+        Ok(_) => {
+            chk!(nd, "C16.pg.numeric.len", out.len() == 8 + 2 * ndig);
+            if k < out.len() && k < 8 + 2 * ndig {
+                chk!(nd, "C16.pg.numeric.byte", out[k] == want[k]);
+            }
+            if RT != 0 {
+                match <Uint<B, 1> as FromSql>::from_sql(&t, &out) {
+                    Ok(x) => chk!(nd, "C16.pg.numeric.roundtrip", x.as_limbs()[0] == val),
+                    Err(e) => {
+                        chk!(nd, "C16.pg.numeric.decode_of_own_encoding_failed", false);
+                        core::mem::forget(e);
+                    }
+                }
+            }
+        }
+        Err(e) => {
+            chk!(nd, "C16.pg.numeric.encode_failed", false);
+            core::mem::forget(e);
+        }
+    }
+    core::mem::forget(out);
+    core::mem::forget(t);
+}
